@@ -794,6 +794,7 @@ func (x *Exec) havocTuple(st *State, t types.Type) Val {
 	if !ok {
 		v := x.havocVal(st, "abs", t)
 		v.Taint = true
+		x.assumeExistingHavoc(st, v)
 		return v
 	}
 	var vs []Val
